@@ -569,6 +569,10 @@ pub fn run(which: Which, case: &CompositeCase, rec: &mut Rec) -> CheckResult {
         return Ok(());
     }
     let t = text(case);
+    let (_scope, chosen) = satwrap::ChoiceScope::for_case(case);
+    if chosen {
+        rec.class("composite-with-sat-backend-returning-chosen-models");
+    }
     rec.class(&format!("composite-n-{:03}+", (lay.n / 25) * 25));
     rec.class(&format!("composite-components-{:02}+", (case.comps.len() / 5) * 5));
     if case.hub > 0 {
@@ -613,6 +617,10 @@ pub fn run_lists(case: &CompositeCase, rec: &mut Rec) -> CheckResult {
         return Ok(());
     }
     let t = text(case);
+    let (_scope, chosen) = satwrap::ChoiceScope::for_case(case);
+    if chosen {
+        rec.class("composite-with-sat-backend-returning-chosen-models");
+    }
     rec.class(&format!("composite-n-{:03}+", (lay.n / 25) * 25));
     if case.apx {
         let af = AspartixReader::default().read(&mut t.as_bytes()).map_err(|e| Failure::new("C07/composite/reader-rejected-generated-file", e.to_string()))?;
